@@ -202,6 +202,23 @@ Example C01_apply_mask_hyps_satisfiable :
   obs_native 0%Z m2 (apply_mask 0%Z m m2 f) = [[1; 0; 0]; [0; 0; 3]]%Z.
 Proof. vm_compute. repeat split. Qed.
 
+
+(* session 4: sizes.  The slim form has exactly one entry per False entry of the mask (any mask), and the published
+   unmasked index list has that many entries *)
+Theorem C01_count_is_number_of_unmasked : forall (m : mask), count m = length (filter negb (concat m)).
+Proof. exact count_is_number_of_unmasked. Qed.
+Theorem C01_slim_length_is_number_of_unmasked : forall (A : Type) (zero : A) (m : mask) (n : list (list A)) H W,
+  rectb H W m = true -> rectb H W n = true -> length (slim_from m n) = length (filter negb (concat m)).
+Proof. exact @slim_length_is_number_of_unmasked. Qed.
+Theorem C01_index_list_false_length : forall (m : mask) H W,
+  rectb H W m = true -> length (mask_slim_indexes m false) = count m.
+Proof. exact index_list_false_length. Qed.
+Example C01_sizes_hyps_satisfiable :
+  let m := [[false; true; true]; [true; false; false]] in
+  rectb 2 3 m = true /\ rectb 2 3 [[1; 50; 60]; [70; 2; 3]]%Z = true /\ count m = 3 /\
+  length (slim_from m [[1; 50; 60]; [70; 2; 3]]%Z) = 3.
+Proof. vm_compute. repeat split. Qed.
+
 Print Assumptions C01_native_for_slim_is_rowmajor_unmasked. Print Assumptions C01_slim_is_rowmajor_gather.
 Print Assumptions C01_native_value_at_kth_unmasked. Print Assumptions C01_native_masked_is_zero.
 Print Assumptions C01_native_has_mask_shape. Print Assumptions C01_slim_native_slim.
@@ -219,3 +236,5 @@ Print Assumptions C01_history_readings. Print Assumptions C01_1d_reading_is_one_
 Print Assumptions C01_mask_after_edit. Print Assumptions C01_indexes_after_edit.
 Print Assumptions C01_mask_history_readings.
 Print Assumptions C01_reading_after_apply_mask. Print Assumptions C01_apply_mask_pointwise.
+Print Assumptions C01_count_is_number_of_unmasked. Print Assumptions C01_slim_length_is_number_of_unmasked.
+Print Assumptions C01_index_list_false_length.
